@@ -236,7 +236,7 @@ _verdict = re.compile(r'<<"VERDICT", (\d+), "([^"]*)", \{(.*)\}>>$')
 _pair = re.compile(r'<<"(C\d+)", "([^"]+)">>')
 
 
-def validate_events(module, events, name, shards=None, deque=False):
+def validate_events(module, events, name, shards=None, deque=False, boundary=None):
     """shard `events`, validate every shard with TLC; returns (verdicts, states, transitions)
     verdict = dict(index=<global index>, cls=..., pairs=[(owner, field)...])"""
     lint_events(events)
@@ -249,11 +249,24 @@ def validate_events(module, events, name, shards=None, deque=False):
     work = os.path.join(BUILD, "work", name)
     sh(["rm", "-rf", work])
     os.makedirs(work, exist_ok=True)
+    # cut points; with `boundary`, a shard may only start at an event for which boundary(event) holds
+    # (stateful traces: a shard must begin at a reset event)
+    cuts = [0]
+    for s in range(1, shards):
+        c = s * size
+        if boundary is not None:
+            while c < n and not boundary(events[c]):
+                c += 1
+        if c < n and c > cuts[-1]:
+            cuts.append(c)
+    cuts.append(n)
     jobs = []
-    for s in range(shards):
-        chunk = events[s * size:(s + 1) * size]
+    offsets = {}
+    for s in range(len(cuts) - 1):
+        chunk = events[cuts[s]:cuts[s + 1]]
         if not chunk:
             continue
+        offsets[s] = cuts[s]
         p = os.path.join(work, f"shard{s}.ndjson")
         with open(p, "w") as f:
             for e in chunk:
@@ -277,7 +290,7 @@ def validate_events(module, events, name, shards=None, deque=False):
                 if tup.startswith('<<"VERDICT"'):
                     if not m:
                         raise ToolError(f"unparsable VERDICT: {tup}")
-                    verdicts.append({"index": s * size + int(m.group(1)) - 1, "cls": m.group(2),
+                    verdicts.append({"index": offsets[s] + int(m.group(1)) - 1, "cls": m.group(2),
                                      "pairs": _pair.findall(m.group(3))})
     log(f"[tlc] {module} {name}: {n} events, {len(jobs)} shards, {len(verdicts)} verdicts, {time.time()-t:.1f}s")
     verdicts.sort(key=lambda v: v["index"])
